@@ -28,8 +28,8 @@ EXTENDS BotpSM, Json, TLC
 
 CONSTANTS Family, Cases, Alphabet, Depth, Seed
 
-VARIABLES hist, path, n, cas
-mcvars == <<vars, hist, path, n, cas>>
+VARIABLES hHist, hPath, hN, hCase
+mcvars == <<vars, hHist, hPath, hN, hCase>>
 
 Data(len, tag) == [i \in 1..len |-> ((Seed * 53) + (tag * 101) + (i * 37) + ((i * i) % 251)) % 256]
 Key1 == Data(32, 1)
@@ -65,7 +65,7 @@ TimeOf(c, j) ==
     [] c = 5 -> LET d == Data(6, 30) IN <<(d[1] * 256) + (IF j = 1 THEN 16 ELSE 17), (d[3] * 256) + d[4], d[5] % 16, 0>>
 TimeU == UNION {{TimeBE(TimeOf(x % 10, 1)), TimeBE(TimeOf(x % 10, 2))} : x \in Cases}
 
-\* ---- HOTP / TOTP values: one HMAC per (key, 8 octets), evaluated once
+\* ---- HOTP / TOTP values: one HMAC per (vKey, 8 octets), evaluated once
 MacU == IF Family = "hotp" THEN CtrU ELSE IF Family = "totp" THEN TimeU ELSE {}
 \* (an explicit function built with :> / @@: TLC pre-evaluates it once with the constants; a definition
 \*  wrapped in TLCEval is NOT pre-evaluated and a [x \in S |-> ...] is re-evaluated at every application)
@@ -101,91 +101,91 @@ OtpOTab(u, k, q, c, p, s, tbe) ==
   LET i == SuiteIdx(u) IN OTab[<<i, SessIdx(i, p, s), c, IF q = Q(1) THEN 1 ELSE 2>>]
 
 -----------------------------------------------------------------------------
-MCInit == Init /\ hist = <<>> /\ path = "" /\ n = 0 /\ cas = 0
+MCInit == Init /\ hHist = <<>> /\ hPath = "" /\ hN = 0 /\ hCase = 0
 
 Begin ==
-  /\ cas = 0
+  /\ hCase = 0
   /\ \E x \in Cases :
-       /\ cas' = x
+       /\ hCase' = x
        /\ \/ /\ Family = "hotp" /\ HotpStart(x \div 10, Key1)
-             /\ hist' = <<[e |-> "HotpStart", digit |-> x \div 10, key |-> Key1]>>
+             /\ hHist' = <<[e |-> "HotpStart", digit |-> x \div 10, key |-> Key1]>>
           \/ /\ Family = "totp" /\ TotpStart(x \div 10, Key1)
-             /\ hist' = <<[e |-> "TotpStart", digit |-> x \div 10, key |-> Key1]>>
+             /\ hHist' = <<[e |-> "TotpStart", digit |-> x \div 10, key |-> Key1]>>
           \/ /\ Family = "ocra" /\ OcraStart(SuiteStr(x \div 10), Key1)
-             /\ hist' = <<[e |-> "OcraStart", suite |-> SuiteStr(x \div 10), key |-> Key1, ok |-> res'.ok]>>
-  /\ path' = "" /\ n' = 0
+             /\ hHist' = <<[e |-> "OcraStart", suite |-> SuiteStr(x \div 10), key |-> Key1, ok |-> vRes'.ok]>>
+  /\ hPath' = "" /\ hN' = 0
 
 Step(code, A, rec) ==
-  /\ cas # 0 /\ n < Depth /\ code \in Alphabet
+  /\ hCase # 0 /\ hN < Depth /\ code \in Alphabet
   /\ A
-  /\ hist' = Append(hist, rec) /\ path' = path \o "." \o code /\ n' = n + 1 /\ UNCHANGED cas
+  /\ hHist' = Append(hHist, rec) /\ hPath' = hPath \o "." \o code /\ hN' = hN + 1 /\ UNCHANGED hCase
 
-Cls == cas % 10
-Wrong(o) == [o EXCEPT ![Len(o)] = 48 + ((o[Len(o)] - 47) % 10)]          \* last digit + 1 mod 10
+Cls == hCase % 10
+Wrong(o) == [o EXCEPT ![Len(o)] = 48 + ((o[Len(o)] - 47) % 10)]          \* last vDigit + 1 mod 10
 Short(o) == SubSeq(o, 1, Len(o) - 1)
 Long(o) == Append(o, 48)
 NextDigit(d) == IF d = 8 THEN 6 ELSE d + 1
 
 \* ---- HOTP
-HS(code, b) == Step(code, HotpStepS(b), [e |-> "HotpStepS", ctr |-> b, pc |-> ctr'])
-HV(code, o) == Step(code, HotpStepV(o), [e |-> "HotpStepV", arg |-> o, ok |-> res'.ok, pc |-> ctr'])
+HS(code, b) == Step(code, HotpStepS(b), [e |-> "HotpStepS", ctr |-> b, pc |-> vCtr'])
+HV(code, o) == Step(code, HotpStepV(o), [e |-> "HotpStepV", arg |-> o, ok |-> vRes'.ok, pc |-> vCtr'])
 HotpNext ==
-  /\ mode = "hotp"
+  /\ vMode = "hotp"
   /\ \/ HS("S", Base(Cls))
      \/ HS("S6", FF8)
-     \/ Step("R", HotpStepR, [e |-> "HotpStepR", otp |-> res'.otp, pc |-> ctr'])
-     \/ Step("G", HotpStepG, [e |-> "HotpStepG", got |-> res'.ctr, pc |-> ctr'])
-     \/ Step("M", Move, [e |-> "Move", pc |-> ctr'])
-     \/ Step("Z", HotpStart(NextDigit(digit), OtherKey(key)), [e |-> "HotpStart", digit |-> digit', key |-> key'])
-     \/ /\ cset
-        /\ \/ HV("Vc", OtpH(digit, key, ctr))
-           \/ HV("Vw", Wrong(OtpH(digit, key, ctr)))
-           \/ HV("Vn", OtpH(digit, key, CtrNext(ctr)))
-           \/ HV("Vp", OtpH(digit, key, CtrPrev(ctr)))
-           \/ HV("Vs", Short(OtpH(digit, key, ctr)))
-           \/ HV("Vl", Long(OtpH(digit, key, ctr)))
+     \/ Step("R", HotpStepR, [e |-> "HotpStepR", otp |-> vRes'.otp, pc |-> vCtr'])
+     \/ Step("G", HotpStepG, [e |-> "HotpStepG", got |-> vRes'.ctr, pc |-> vCtr'])
+     \/ Step("M", Move, [e |-> "Move", pc |-> vCtr'])
+     \/ Step("Z", HotpStart(NextDigit(vDigit), OtherKey(vKey)), [e |-> "HotpStart", digit |-> vDigit', key |-> vKey'])
+     \/ /\ vSet
+        /\ \/ HV("Vc", OtpH(vDigit, vKey, vCtr))
+           \/ HV("Vw", Wrong(OtpH(vDigit, vKey, vCtr)))
+           \/ HV("Vn", OtpH(vDigit, vKey, CtrNext(vCtr)))
+           \/ HV("Vp", OtpH(vDigit, vKey, CtrPrev(vCtr)))
+           \/ HV("Vs", Short(OtpH(vDigit, vKey, vCtr)))
+           \/ HV("Vl", Long(OtpH(vDigit, vKey, vCtr)))
 
 \* ---- TOTP
-TR(code, t) == Step(code, TotpStepR(t), [e |-> "TotpStepR", t |-> t, otp |-> res'.otp])
-TV(code, o, t) == Step(code, TotpStepV(o, t), [e |-> "TotpStepV", t |-> t, arg |-> o, ok |-> res'.ok])
-TotpVal(j) == OtpH(digit, key, TimeBE(TimeOf(Cls, j)))
+TR(code, t) == Step(code, TotpStepR(t), [e |-> "TotpStepR", t |-> t, otp |-> vRes'.otp])
+TV(code, o, t) == Step(code, TotpStepV(o, t), [e |-> "TotpStepV", t |-> t, arg |-> o, ok |-> vRes'.ok])
+TotpVal(j) == OtpH(vDigit, vKey, TimeBE(TimeOf(Cls, j)))
 TotpNext ==
-  /\ mode = "totp"
+  /\ vMode = "totp"
   /\ \/ TR("R1", TimeOf(Cls, 1))
      \/ TR("R2", TimeOf(Cls, 2))
      \/ TV("Vc1", TotpVal(1), TimeOf(Cls, 1))
      \/ TV("Vc2", TotpVal(2), TimeOf(Cls, 2))
      \/ TV("Vx", TotpVal(1), TimeOf(Cls, 2))
      \/ TV("Vw", Wrong(TotpVal(1)), TimeOf(Cls, 1))
-     \/ Step("M", Move, [e |-> "Move", pc |-> ctr'])
-     \/ Step("Z", TotpStart(NextDigit(digit), OtherKey(key)), [e |-> "TotpStart", digit |-> digit', key |-> key'])
+     \/ Step("M", Move, [e |-> "Move", pc |-> vCtr'])
+     \/ Step("Z", TotpStart(NextDigit(vDigit), OtherKey(vKey)), [e |-> "TotpStart", digit |-> vDigit', key |-> vKey'])
 
 \* ---- OCRA
 OS(code, b, j) == Step(code, OcraStepS(b, SessP(j), SessS(j)),
-                       [e |-> "OcraStepS", ctr |-> b, p |-> SessP(j), s |-> SessS(j), pc |-> ctr'])
-OR(code, w) == Step(code, OcraStepR(Q(w), T(w)), [e |-> "OcraStepR", q |-> Q(w), t |-> T(w), otp |-> res'.otp, pc |-> ctr'])
+                       [e |-> "OcraStepS", ctr |-> b, p |-> SessP(j), s |-> SessS(j), pc |-> vCtr'])
+OR(code, w) == Step(code, OcraStepR(Q(w), T(w)), [e |-> "OcraStepR", q |-> Q(w), t |-> T(w), otp |-> vRes'.otp, pc |-> vCtr'])
 OV(code, o, w) == Step(code, OcraStepV(o, Q(w), T(w)),
-                       [e |-> "OcraStepV", q |-> Q(w), t |-> T(w), arg |-> o, ok |-> res'.ok, pc |-> ctr'])
-OcraAt(c) == OtpO(suite, key, Q(1), c, sp, ss, TimeBE(T(1)))
+                       [e |-> "OcraStepV", q |-> Q(w), t |-> T(w), arg |-> o, ok |-> vRes'.ok, pc |-> vCtr'])
+OcraAt(c) == OtpO(vSuite, vKey, Q(1), c, vP, vS, TimeBE(T(1)))
 OcraNext ==
-  /\ mode = "ocra"
+  /\ vMode = "ocra"
   /\ \/ OS("S", Base(Cls), 1)
      \/ OS("S2", Base(Cls), 2)
      \/ OS("S6", FF8, 1)
      \/ OR("R", 1)
      \/ OR("Rq", 2)
-     \/ Step("G", OcraStepG, [e |-> "OcraStepG", got |-> res'.ctr, pc |-> ctr'])
-     \/ Step("M", Move, [e |-> "Move", pc |-> ctr'])
-     \/ LET other == IF suite = SuiteStr(cas \div 10) THEN SuiteStr(Partner(cas \div 10)) ELSE SuiteStr(cas \div 10)
-        IN Step("Z", OcraStart(other, Key1), [e |-> "OcraStart", suite |-> other, key |-> Key1, ok |-> res'.ok])
+     \/ Step("G", OcraStepG, [e |-> "OcraStepG", got |-> vRes'.ctr, pc |-> vCtr'])
+     \/ Step("M", Move, [e |-> "Move", pc |-> vCtr'])
+     \/ LET other == IF vSuite = SuiteStr(hCase \div 10) THEN SuiteStr(Partner(hCase \div 10)) ELSE SuiteStr(hCase \div 10)
+        IN Step("Z", OcraStart(other, Key1), [e |-> "OcraStart", suite |-> other, key |-> Key1, ok |-> vRes'.ok])
      \/ /\ OcraReady
-        /\ \/ OV("Vc", OcraAt(ctr), 1)
-           \/ OV("Vw", Wrong(OcraAt(ctr)), 1)
-           \/ OV("Vn", OcraAt(CtrNext(ctr)), 1)
-           \/ OV("Vp", OcraAt(CtrPrev(ctr)), 1)
-           \/ OV("Vs", Short(OcraAt(ctr)), 1)
-           \/ OV("Vl", Long(OcraAt(ctr)), 1)
-           \/ OV("Vq", OcraAt(ctr), 2)
+        /\ \/ OV("Vc", OcraAt(vCtr), 1)
+           \/ OV("Vw", Wrong(OcraAt(vCtr)), 1)
+           \/ OV("Vn", OcraAt(CtrNext(vCtr)), 1)
+           \/ OV("Vp", OcraAt(CtrPrev(vCtr)), 1)
+           \/ OV("Vs", Short(OcraAt(vCtr)), 1)
+           \/ OV("Vl", Long(OcraAt(vCtr)), 1)
+           \/ OV("Vq", OcraAt(vCtr), 2)
 
 MCNext == Begin \/ HotpNext \/ TotpNext \/ OcraNext
 MCSpec == MCInit /\ [][MCNext]_mcvars
@@ -199,6 +199,6 @@ P_GetCtr    == [][A_GetCtr]_mcvars
 P_Sync      == [][A_Sync]_mcvars
 
 \* ---- replay cases: one line per maximal history
-Leaf == cas # 0 /\ n = Depth
-Emit == Leaf => PrintT("@J " \o ToJson([id |-> Family \o "_" \o ToString(cas) \o path, hist |-> hist]))
+Leaf == hCase # 0 /\ hN = Depth
+Emit == Leaf => PrintT("@J " \o ToJson([id |-> Family \o "_" \o ToString(hCase) \o hPath, hist |-> hHist]))
 =============================================================================
